@@ -1331,6 +1331,13 @@ structure LeInv (fuel : Nat) : Prop where
   block : ∀ ss st, StackLE (blockS fuel ss st).2.blocks.tail st.blocks.tail
   ifs : ∀ br els st, StackLE (ifS fuel br els st).2.blocks st.blocks
   whl : ∀ c body st, StackLE (whileS fuel c body st).2.blocks st.blocks
+  fe : ∀ x d vals body st, StackLE (foreachS fuel x d vals body st).2.blocks st.blocks
+
+theorem inBlockWith_le {α} (b : Block) (f : St → α × St) (st : St)
+    (h : StackLE (f { st with blocks := b :: st.blocks }).2.blocks.tail st.blocks) :
+    StackLE (inBlockWith b f st).2.blocks st.blocks := by
+  unfold inBlockWith
+  simpa [St.pop] using h
 
 theorem inBlock_le {α} (f : St → α × St) (st : St)
     (h : StackLE (f st.push).2.blocks.tail st.push.blocks.tail) :
@@ -1341,7 +1348,7 @@ theorem inBlock_le {α} (f : St → α × St) (st : St)
 theorem leInv : ∀ fuel, LeInv fuel
   | 0 => by
     constructor <;> intros <;>
-      simp only [evalS, evalArgsS, callS, bindParamsS, stmtS, blockS, ifS, whileS] <;> exact StackLE.refl _
+      simp only [evalS, evalArgsS, callS, bindParamsS, stmtS, blockS, ifS, whileS, foreachS] <;> exact StackLE.refl _
   | fuel + 1 => by
     have ih := leInv fuel
     constructor
@@ -1486,6 +1493,7 @@ theorem leInv : ∀ fuel, LeInv fuel
         rcases r with ⟨_ | v, st1⟩ <;> exact h1
       | ifs br els => simp only [stmtS]; exact (ih.ifs br els st).tail
       | «while» c body => simp only [stmtS]; exact (ih.whl c body st).tail
+      | foreach x d vals body => simp only [stmtS]; exact (ih.fe x d vals body st).tail
       | brk => simp only [stmtS]; exact StackLE.refl _
       | cont => simp only [stmtS]; exact StackLE.refl _
       | exit => simp only [stmtS]; exact StackLE.refl _
@@ -1552,6 +1560,29 @@ theorem leInv : ∀ fuel, LeInv fuel
         | F => exact h1
         | U => exact h1
 
+
+    · -- foreach
+      intro x d vals body st
+      cases vals with
+      | nil => cases d <;> simp only [foreachS] <;> exact StackLE.refl _
+      | cons v rest =>
+        cases d with
+        | true =>
+          simp only [foreachS]
+          have h2 := inBlockWith_le ⟨[(x, v)], []⟩ (blockS fuel body) st (ih.block body _)
+          generalize inBlockWith ⟨[(x, v)], []⟩ (blockS fuel body) st = r at h2 ⊢
+          rcases r with ⟨o, st2⟩
+          cases o <;> first | exact h2 | exact (ih.fe x true rest body st2).trans h2
+        | false =>
+          simp only [foreachS]
+          cases hs : setVar x v st.blocks with
+          | none => exact StackLE.refl _
+          | some bs =>
+            simp only []
+            have h2 := (inBlock_le _ _ (ih.block body (St.push { st with blocks := bs }))).trans (setVar_le hs)
+            generalize inBlock (blockS fuel body) { st with blocks := bs } = r at h2 ⊢
+            rcases r with ⟨o, st2⟩
+            cases o <;> first | exact h2 | exact (ih.fe x false rest body st2).trans h2
 
 /-! ## assignments and lookups -/
 
@@ -1669,5 +1700,22 @@ theorem whileS_catches : ∀ (fuel : Nat) (c : Expr) (body : List Stmt) (st : St
         rcases inBlock (blockS f body) st1 with ⟨o, st2⟩
         cases o <;> first | exact whileS_catches f c body st2 | simp
 
+
+theorem foreachS_catches : ∀ (fuel x : Nat) (d : Bool) (vals : List SVal) (body : List Stmt) (st : St),
+    (foreachS fuel x d vals body st).1 ≠ .brk ∧ (foreachS fuel x d vals body st).1 ≠ .cont
+  | 0, _, _, _, _, _ => by simp [foreachS]
+  | f + 1, x, d, [], body, st => by cases d <;> simp [foreachS]
+  | f + 1, x, true, v :: rest, body, st => by
+    simp only [foreachS]
+    rcases inBlockWith ⟨[(x, v)], []⟩ (blockS f body) st with ⟨o, st2⟩
+    cases o <;> first | exact foreachS_catches f x true rest body st2 | simp
+  | f + 1, x, false, v :: rest, body, st => by
+    simp only [foreachS]
+    cases setVar x v st.blocks with
+    | none => simp
+    | some bs =>
+      simp only []
+      rcases inBlock (blockS f body) { st with blocks := bs } with ⟨o, st2⟩
+      cases o <;> first | exact foreachS_catches f x false rest body st2 | simp
 
 end Csvq.Scope
